@@ -369,6 +369,29 @@ def markov_oracle(sr, T, sizes, step, names, data):
     for t in range(1, T):
         f = nt_index((names, data), "time", t)
         acc = nt_reduce(sr, nt_mul(sr, nt_rename(acc, drop), nt_rename(f, p2drop)), list(drop.values()), {d: sizes[c] for c, d in drop.items()})
+    # oracle self-check on short chains: the fully unrolled joint table with explicit python loops
+    full = all(n in names for n in list(step) + list(step.values()))
+    if 2 <= T <= 3 and full and int(np.prod([sizes[c] for c in step.values()])) ** (T + 1) * int(np.prod([sizes[n] for n in names if n[0] == "b"] or [1])) <= 256:
+        facs = []
+        usz = {}
+        for t in range(T):
+            ren = {}
+            for p, c in step.items():
+                ren[p] = "%s@%d" % (c, t)
+                ren[c] = "%s@%d" % (c, t + 1)
+            facs.append(nt_rename(nt_index((names, data), "time", t), ren))
+        for f in facs:
+            usz.update(zip(f[0], np.shape(f[1])))
+        mids = [n for n in usz if "@" in n and 0 < int(n.split("@")[1]) < T]
+        keep = tuple(n for n in usz if n not in mids)
+        loop = nt_pointwise_loop(sr, facs, keep, mids, usz)
+        back = {}
+        for p, c in step.items():
+            back["%s@0" % c] = p
+            back["%s@%d" % (c, T)] = c
+        loop = nt_rename(loop, back)
+        asz = {n: sizes[n] for n in loop[0]}
+        assert compare(loop, acc, asz) is None and compare(acc, loop, asz) is None, "markov oracle self-check"
     return acc
 
 
@@ -933,7 +956,17 @@ def plated_oracle(sr, factors, plates, elim, scales=None):
                     ren[v] = v + "@" + ",".join("%s%d" % (p, at[p]) for p in lives[v])
                     copies.append(ren[v])
             instances.append(nt_rename(inst, ren))
-    return ve_eliminate(sr, instances, copies)
+    result = ve_eliminate(sr, instances, copies)
+    # oracle self-check on small unrolled models: explicit python loops over every point of the joint space
+    allsz = {}
+    for names, arr in instances:
+        allsz.update(zip(names, np.shape(arr)))
+    if instances and int(np.prod(list(allsz.values()) or [1])) <= 128:
+        cp = list(dict.fromkeys(copies))
+        keep = tuple(n for n in allsz if n not in cp)
+        loop = nt_pointwise_loop(sr, instances, keep, cp, allsz)
+        assert compare(loop, result, allsz) is None and compare(result, loop, allsz) is None, "plated oracle self-check"
+    return result
 
 
 def plated_split_ok(factors, plates, e1, e2):
